@@ -13,6 +13,7 @@ ROOT = os.path.dirname(HERE)
 PARAMS = {  # property -> (quick: len, cuts), (thorough: len, cuts)
     "C01": ((4, 1), (5, 2)),
     "C02": ((4, 1), (5, 2)),
+    "C03": ((0, 1), (0, 1)),
     "C04": ((4, 0), (5, 0)),
     "C06": ((4, 1), (5, 1)),
     "C07": ((3, 3), (4, 3)),
@@ -109,6 +110,15 @@ def run(name, repo="/repo", work=None, tier="quick", prop=None, seed=0):
         except Exception as e:
             res["reason"] = f"encoding mode of the bounded executor gave no report: {e}"
             return res
+    tb_extra = None
+    if prop == "C16":
+        try:
+            q = subprocess.run([exe, "C03", "0", "1", str(seed)], capture_output=True, text=True, timeout=3000)
+            tb_extra = json.loads(q.stdout.strip().split("\n")[-1])
+            res["cmds"].append("bounded C03 (conformance cases, namespace clause only)")
+        except Exception as e:
+            res["reason"] = f"conformance mode of the bounded executor gave no report: {e}"
+            return res
     try:
         p = subprocess.run(cmd, capture_output=True, text=True, timeout=3000)
     except subprocess.TimeoutExpired:
@@ -129,14 +139,20 @@ def run(name, repo="/repo", work=None, tier="quick", prop=None, seed=0):
         res["reason"] = "bounded executor crashed or printed no report: " + (p.stderr[-400:] or p.stdout[-400:])
         # a panic of the real crate on some input is itself a robustness violation, but we cannot name the input here
         return res
+    if j.get("tb_mode"):
+        # the namespace_uri clause of the conformance cases belongs to C16, the token clauses to C03
+        j = {k: v for k, v in j.items() if k != "known_class_integration_point_ns"}
+        j["violations"] = [v for v in j["violations"] if "namespace_uri" not in v["what"]]
     res["cases"] = j["cases"]
-    if "selectors" not in j and "encodings" not in j and not j.get("attr_mode"):
+    if "selectors" not in j and "encodings" not in j and not j.get("attr_mode") and not j.get("tb_mode"):
       res["bound"] = f"all strings over the {len(j['alphabet'])}-symbol alphabet {j['alphabet']!r} up to length {j['exhaustive_len']} + {j['seed_documents']} seed documents, every {j['max_cuts']}-cut chunking, 7 handler configurations"
     res["violations"] = [dict(what=v["what"], detail=json.dumps(v)) | v for v in j["violations"]]
     # violations the executor classifies under a known-finding class (reported separately so that they cannot mask others);
     # `check` prints KNOWN-FINDING only if known_findings.json lists a finding identified by that class, otherwise they are
     # ordinary violations
     res["classified"] = {k[len("known_class_"):]: v for k, v in j.items() if k.startswith("known_class_") and v}
+    if j.get("tb_mode"):
+        res["bound"] = f"{j['seed_documents']} hand-derived WHATWG conformance cases (foreign content, integration points, text-type switches), each with and without an element handler, under every 1-cut chunking"
     if j.get("attr_mode"):
         res["bound"] = f"start tags with up to {j['exhaustive_len']} attributes from {j['alphabet']}, every edit script of up to {j['max_cuts']} operations, reads and re-parsed output against a list model"
         keep = {"C16": ("attributes()", "get_attribute"), "C07": ("re-parsed", "unedited", "after edits", "rewriter failed")}[prop]
@@ -145,6 +161,12 @@ def run(name, repo="/repo", work=None, tier="quick", prop=None, seed=0):
         res["bound"] = f"{j['encodings']} ASCII-compatible encodings (all of encoding_rs) x all byte strings over {j['alphabet']} up to length {j['exhaustive_len']} as text / attribute value / comment text x every write boundary, 4 texts of 2600 bytes per encoding (beyond the decoder buffer), inserted strings with unmappable characters, meta-charset switch at every cut (reference: encoding_rs one-shot decoder without BOM handling)"
     if "selectors" in j:
         res["bound"] = f"{j['selectors']} selectors of the generated grammar sample x all tag sequences over {j['alphabet']} up to length {j['exhaustive_len']} + {j['seed_documents']} seed documents + pseudo-random sequences of 6-12 tokens (1500 quick / 6000 thorough, fixed seed) (independent tree/selector oracle)"
+    if tb_extra:
+        res["cases"] += tb_extra["cases"]
+        res["bound"] += "; plus the namespace_uri clause of the WHATWG conformance cases"
+        res["violations"] += [dict(what=v["what"], detail=json.dumps(v)) | v for v in tb_extra["violations"] if "namespace_uri" in v["what"]]
+        if tb_extra.get("known_class_integration_point_ns"):
+            res.setdefault("classified", {})["integration_point_ns"] = tb_extra["known_class_integration_point_ns"]
     if extra:
         res["cases"] += extra["cases"]
         res["bound"] += "; plus the encoding mode: 36 encodings x byte strings up to length " + ("2" if tier == "quick" else "3") + " x every write boundary, long texts"
